@@ -109,4 +109,22 @@ theorem interface_callers_as_modelled : PoolFacts.interfaceCallers = expectedInt
 /-- No other function of package `service` reaches into the pool's fields. -/
 theorem field_users_as_modelled : PoolFacts.fieldUsers = expectedFieldUsers := by decide
 
+/-- The fork schedules the correspondence run replays (heights on both sides of every proposal the pool's path
+reads) are the source's mainnet and robin schedules. -/
+theorem schedules_as_replayed :
+    PoolFacts.mainNetSchedule = [54038500, 55959500, 61202000, 63100000] ∧
+    PoolFacts.robinSchedule = [62320000, 65795000, 74312000, 77826000] := by decide
+
+/-- No function of the pool, the container or `Transactions.Less` writes package-level state, except the
+singleton set once at start-up: results cannot depend on hidden process-local history. -/
+theorem no_package_state_written :
+    PoolFacts.packageWrites = ["src/service/transaction_pool.go:initTransactionPool:txpoolInstance"] := by decide
+
+/-- Which store errors the pool drops, as modelled: `MarkExecuted` has no error result and ignores what
+`batch.Write` returns (a failed write loses the block's records silently — `Props/C17D.write_error_loses_records`),
+`UnMarkExecuted` ignores `executed.Delete`. A change here (e.g. error handling added) must be re-read. -/
+theorem dropped_errors_as_modelled :
+    PoolFacts.droppedErrors = ["TxPool.refreshGateNonce:batch.Put", "TxPool.MarkExecuted:batch.Put",
+      "TxPool.MarkExecuted:batch.Write", "TxPool.MarkExecuted:batch.Write", "TxPool.UnMarkExecuted:executed.Delete"] := by decide
+
 end Rangers.Props.C17B
